@@ -333,6 +333,7 @@ func main() {
 		return r
 	}
 	var realViolations []*Obligation
+	nExcused := 0
 	for _, o := range violations {
 		excused := false
 		for _, k := range e.known {
@@ -345,6 +346,9 @@ func main() {
 		}
 		if !excused {
 			realViolations = append(realViolations, o)
+		} else {
+			nObl-- // an obligation excused by a recorded, witnessed finding is reported separately, not as discharged
+			nExcused++
 		}
 	}
 	for _, k := range e.known {
@@ -422,20 +426,21 @@ func main() {
 		var fnames []string
 		fnames = append(fnames, keys...)
 		cov := map[string]interface{}{
-			"obligations":              nObl,
-			"discharged":               nDis,
-			"queries":                  nQueries,
-			"checker_cmd":              fmt.Sprintf("/verif/check %s --tier %s", *prop, *tier),
-			"trusted_base":             trusted,
-			"functions_under_contract": fnames,
-			"samples":                  samples,
-			"solver_seconds":           float64(solverMs) / 1000.0,
-			"by_solver":                bySolver,
-			"smoke_checks":             smoke,
-			"known_findings":           knownLines,
-			"generation_seconds":       tGen.Seconds(),
-			"contract_lines":           e.contracts.NLines,
-			"lean":                     leanNote,
+			"obligations":               nObl,
+			"discharged":                nDis,
+			"queries":                   nQueries,
+			"checker_cmd":               fmt.Sprintf("/verif/check %s --tier %s", *prop, *tier),
+			"trusted_base":              trusted,
+			"functions_under_contract":  fnames,
+			"samples":                   samples,
+			"solver_seconds":            float64(solverMs) / 1000.0,
+			"by_solver":                 bySolver,
+			"smoke_checks":              smoke,
+			"known_findings":            knownLines,
+			"generation_seconds":        tGen.Seconds(),
+			"contract_lines":            e.contracts.NLines,
+			"lean":                      leanNote,
+			"excused_by_known_findings": nExcused,
 		}
 		if extraPath := filepath.Join(*verifDir, "notes", *prop+".json"); fileExists(extraPath) {
 			var extraM map[string]interface{}
@@ -554,6 +559,9 @@ func runWitness(repo, verifDir string, k *KnownFinding) string {
 	}
 	if strings.Contains(s, "panic: test timed out") {
 		return "present" // hang witnesses
+	}
+	if strings.Contains(s, "stack overflow") || strings.Contains(s, "goroutine stack exceeds") {
+		return "present" // unbounded recursion witnesses: the process dies with a fatal stack overflow
 	}
 	fmt.Fprintf(os.Stderr, "witness %s: inconclusive output:\n%s\n", k.Witness, trunc(s, 2000))
 	return "skipped"
